@@ -45,6 +45,7 @@ FIXTURES = [
     ("c14_bad_clock", "bad", ["A1"]),
     ("c14_bad_inclusive_plus_first", "bad", ["A3"]),
     ("c14_bad_float_no_guard", "bad", ["A4"]),
+    ("c14_bad_float_negated_guard", "bad", ["A4"]),
 ]
 
 TY = {}
@@ -347,7 +348,9 @@ def check(col, prog, tier, profile, fixture=None):
         ok = r == start
         why = "returns start"
         if not ok:
-            ok = ("eq", ("fcmp", "Lt", r, end), 1) in st.facts or ("eq", ("fcmp", "Ge", r, end), 0) in st.facts or ("eq", ("fcmp", "Gt", end, r), 1) in st.facts
+            # only the POSITIVE comparison counts: `!(x >= end)` also holds for x = NaN (0 * inf when the
+            # range length overflows), `x < end` does not
+            ok = ("eq", ("fcmp", "Lt", r, end), 1) in st.facts or ("eq", ("fcmp", "Gt", end, r), 1) in st.facts
             why = "returned under the fact x < end"
         key = "%s|upper-bound|path%d" % (fk(fb), n)
         if ok:
